@@ -575,6 +575,7 @@ def insert_closures(text, closures):
     found = find_closures(ft)
     edits = []
     todo = []
+    renamed = []   # (closure index, alpha-renamed spec): used only for closures no key matches exactly, and only if unambiguous
     for n, spec in closures.items():
         if isinstance(n, str):
             # pattern key: every closure whose text (whitespace-insensitive) equals the pattern; none is fine
@@ -593,10 +594,52 @@ def insert_closures(text, closures):
                         continue
                 if (key.endswith('|') and key == params) or key == txt:
                     todo.append((idx, spec))
+                elif key.endswith('|') and key.startswith('|'):
+                    # same adaptor, same NUMBER of simple identifier parameters under other names (a renamed closure parameter):
+                    # the annotation is alpha-renamed to the names the code uses
+                    def _names(pl):
+                        inner = pl.strip()[1:-1]
+                        if not inner.strip():
+                            return []
+                        out_ = []
+                        for part in inner.split(','):
+                            nm = part.split(':', 1)[0].strip()
+                            if nm.startswith('mut'):
+                                nm = nm[3:].strip()
+                            if not re.match(r'^[A-Za-z][A-Za-z0-9_]*$', nm):
+                                return None
+                            out_.append(nm)
+                        return out_
+                    raw_params = ft.text[ft.toks[f[0]].start:ft.toks[f[1]].end]
+                    dn, an = _names(n.split(':', 1)[1] if (':|' in n and not n.strip().startswith('|')) else n), _names(raw_params)
+                    if dn and an and len(dn) == len(an) and dn != an and len(set(an)) == len(an):
+                        def _ren(x):
+                            if isinstance(x, str):
+                                tmp = x
+                                for i_, d_ in enumerate(dn):
+                                    tmp = re.sub(r'(?<![\w.])%s\b' % re.escape(d_), '\x00%d\x00' % i_, tmp)
+                                for i_, a_ in enumerate(an):
+                                    tmp = tmp.replace('\x00%d\x00' % i_, a_)
+                                return tmp
+                            if isinstance(x, (list, tuple)):
+                                return type(x)(_ren(y) for y in x)
+                            return x
+                        spec2 = dict(spec)
+                        spec2['params'] = _ren(spec.get('params', ''))
+                        spec2['requires'] = [(l, _ren(e)) for (l, e) in spec.get('requires', [])]
+                        spec2['ensures'] = [(l, _ren(e)) for (l, e) in spec.get('ensures', [])]
+                        renamed.append((idx, spec2))
             continue
         if n >= len(found):
             raise Lost('closure #%d not found' % n)
         todo.append((n, spec))
+    exact = {i_ for (i_, _s) in todo}
+    cand = {}
+    for (i_, sp_) in renamed:
+        cand.setdefault(i_, []).append(sp_)
+    for i_, sps in cand.items():
+        if i_ not in exact and len(sps) == 1:
+            todo.append((i_, sps[0]))
     for n, spec in todo:
         b1, b2, s0, s1, is_block = found[n]
         toks = ft.toks
